@@ -1,62 +1,124 @@
 /- Helper lemmas for the SRTP gate model (`RtcModel/Gate.lean`). -/
 import RtcModel.Gate
 namespace RtcModel.Gate
+variable {S : Suite}
 
-@[simp] theorem St.set_same (s : St) (t : Tid) (x : Tr) : (s.set t x) t = x := by simp [St.set]
-theorem St.set_other (s : St) (t c : Tid) (x : Tr) (h : c ≠ t) : (s.set t x) c = s c := by
+@[simp] theorem St.set_same (s : St S) (t : Tid) (x : Tr S) : (s.set t x) t = x := by simp [St.set]
+theorem St.set_other (s : St S) (t c : Tid) (x : Tr S) (h : c ≠ t) : (s.set t x) c = s c := by
   simp [St.set, h]
 
-/-- `srtp_required` never changes -/
-theorem step_required (s : St) (o : Op) (c : Tid) : ((step s o).1 c).required = (s c).required := by
-  cases o with
-  | installKeys t k => by_cases h : c = t <;> simp [step, St.set, h]
-  | setBridge t b => by_cases h : c = t <;> simp [step, St.set, h]
-  | clearBridge t => by_cases h : c = t <;> simp [step, St.set, h]
-  | close t => by_cases h : c = t <;> simp [step, St.set, h]
-  | _ => rfl
+/-! ### every gate leaves the key of the slot alone (it only advances the session state) -/
 
-theorem run_required (s : St) (ops : List Op) (c : Tid) : ((run s ops) c).required = (s c).required := by
-  induction ops generalizing s with
-  | nil => rfl
-  | cons o os ih => simp only [run]; rw [ih, step_required]
+theorem sendRawGate_key (t : Tid) (x : Tr S) (p : Bool) : (sendRawGate t x p).1.map S.keyOf = x.key := by
+  unfold sendRawGate Tr.key; split <;> (try split) <;> simp_all [S.protectRtp_key]
+theorem sendRtpGate_key (t : Tid) (x : Tr S) : (sendRtpGate t x).1.map S.keyOf = x.key := by
+  unfold sendRtpGate Tr.key; split <;> simp_all [S.protectRtp_key]
+theorem sendRtcpGate_key (t : Tid) (x : Tr S) : (sendRtcpGate t x).1.map S.keyOf = x.key := by
+  unfold sendRtcpGate Tr.key; split <;> simp_all [S.protectRtcp_key]
+theorem syncByeGate_key (t : Tid) (x : Tr S) : (syncByeGate t x).1.map S.keyOf = x.key := by
+  unfold syncByeGate Tr.key; split <;> simp_all [S.protectRtcp_key]
+theorem bridgeGate_key (t : Tid) (x : Tr S) (o : Tid) (p : Prov) : (bridgeGate t x o p).1.map S.keyOf = x.key := by
+  unfold bridgeGate Tr.key; split <;> simp_all [S.protectRtp_key]
+theorem recvRtpGate_key (x : Tr S) (w : S.W) : (recvRtpGate x w).1.map S.keyOf = x.key := by
+  unfold recvRtpGate Tr.key; split <;> simp_all [S.unprotectRtp_key]
+theorem recvRtcpGate_key (x : Tr S) (w : S.W) : (recvRtcpGate x w).1.map S.keyOf = x.key := by
+  unfold recvRtcpGate Tr.key; split <;> simp_all [S.unprotectRtcp_key]
 
-/-- the session slot holds exactly the last installed key set -/
-theorem step_keys (s : St) (o : Op) (c : Tid) :
-    ((step s o).1 c).keys = lastInstalled c (s c).keys [o] := by
+/-- replacing `t`'s session by one with the same key changes neither flags, bridges nor keys anywhere -/
+theorem withSess_frame (s : St S) (t : Tid) (g : Option S.Sess) (hg : g.map S.keyOf = (s t).key) (c : Tid) :
+    ((withSess s t g) c).required = (s c).required ∧ ((withSess s t g) c).key = (s c).key ∧
+    ((withSess s t g) c).bridge = (s c).bridge ∧ ((withSess s t g) c).observer = (s c).observer ∧
+    ((withSess s t g) c).listener = (s c).listener := by
+  unfold withSess
+  by_cases h : c = t
+  · subst h; simp [Tr.key] at *; exact hg
+  · simp [St.set, h]
+
+theorem relayTo_frame (s : St S) (t : Tid) (p : Prov) (tgt c : Tid) :
+    ((relayTo s t p tgt).1 c).required = (s c).required ∧ ((relayTo s t p tgt).1 c).key = (s c).key := by
+  have := bridgeGate_key tgt (s tgt) t p
+  unfold relayTo
+  by_cases h : c = tgt
+  · subst h; simp [Tr.key] at *; exact this
+  · simp [St.set, h]
+
+theorem afterAccept_frame (s : St S) (t : Tid) (p : Prov) (v : Bool) (c : Tid) :
+    ((afterAccept s t p v).1 c).required = (s c).required ∧ ((afterAccept s t p v).1 c).key = (s c).key := by
+  unfold afterAccept
+  split
+  · exact relayTo_frame s t p _ c
+  · exact ⟨rfl, rfl⟩
+
+/-- what one step does to the `required` flag and the key of any transport's slot -/
+theorem step_frame (s : St S) (o : Op S) (c : Tid) :
+    ((step s o).1 c).required = (s c).required ∧
+    ((step s o).1 c).key = lastInstalled c (s c).key [o] := by
+  have upd : ∀ (t : Tid) (g : Option S.Sess), g.map S.keyOf = (s t).key →
+      ((withSess s t g) c).required = (s c).required ∧ ((withSess s t g) c).key = (s c).key :=
+    fun t g hg => ⟨(withSess_frame s t g hg c).1, (withSess_frame s t g hg c).2.1⟩
   cases o with
   | installKeys t k =>
     by_cases h : c = t
-    · simp [step, St.set, h, lastInstalled]
+    · subst h; simp [step, lastInstalled, Tr.key, S.keyOf_fresh]
     · have h' : ¬ t = c := fun e => h e.symm
       simp [step, St.set, h, h', lastInstalled]
-  | setBridge t b => by_cases h : c = t <;> simp [step, St.set, h, lastInstalled]
-  | clearBridge t => by_cases h : c = t <;> simp [step, St.set, h, lastInstalled]
-  | close t => by_cases h : c = t <;> simp [step, St.set, h, lastInstalled]
-  | _ => rfl
+  | sendRtp t => simpa [step, own, lastInstalled] using upd t _ (sendRtpGate_key t (s t))
+  | sendRaw t p => simpa [step, own, lastInstalled] using upd t _ (sendRawGate_key t (s t) p)
+  | sendRtcp t => simpa [step, own, lastInstalled] using upd t _ (sendRtcpGate_key t (s t))
+  | syncBye t => simpa [step, own, lastInstalled] using upd t _ (syncByeGate_key t (s t))
+  | setBridge t b => by_cases h : c = t <;> simp [step, St.set, h, lastInstalled, Tr.key]
+  | clearBridge t => by_cases h : c = t <;> simp [step, St.set, h, lastInstalled, Tr.key]
+  | setFlags t l r ob => by_cases h : c = t <;> simp [step, St.set, h, lastInstalled, Tr.key]
+  | close t =>
+    have hk := syncByeGate_key t (closed (s t))
+    simp only [step, own, lastInstalled]
+    have h0 : ∀ c, ((s.set t (closed (s t))) c).required = (s c).required ∧ ((s.set t (closed (s t))) c).key = (s c).key := by
+      intro c; by_cases h : c = t
+      · subst h; simp [closed, Tr.key]
+      · simp [St.set, h]
+    have := withSess_frame (s.set t (closed (s t))) t (syncByeGate t (closed (s t))).1 (by simpa [closed, Tr.key] using hk) c
+    exact ⟨this.1.trans (h0 c).1, this.2.1.trans (h0 c).2⟩
+  | recvRtcp t w =>
+    have := upd t _ (recvRtcpGate_key (s t) w)
+    simp only [step, recvRtcp, lastInstalled]
+    split <;> exact this
+  | recvRtp t w v =>
+    have h1 := upd t _ (recvRtpGate_key (s t) w)
+    simp only [step, recvRtp, lastInstalled]
+    split
+    · exact h1
+    · have h2 := afterAccept_frame (withSess s t (recvRtpGate (s t) w).1) t ‹_› v c
+      exact ⟨h2.1.trans h1.1, h2.2.trans h1.2⟩
 
-theorem lastInstalled_append (c : Tid) (i : Option KeyId) (a b : List Op) :
+theorem run_required (s : St S) (ops : List (Op S)) (c : Tid) : ((run s ops) c).required = (s c).required := by
+  induction ops generalizing s with
+  | nil => rfl
+  | cons o os ih => simp only [run]; rw [ih, (step_frame s o c).1]
+
+theorem lastInstalled_append (c : Tid) (i : Option KeyId) (a b : List (Op S)) :
     lastInstalled c i (a ++ b) = lastInstalled c (lastInstalled c i a) b := by
   induction a generalizing i with
   | nil => rfl
   | cons o os ih => cases o <;> simp [lastInstalled, ih]
 
-theorem run_keys (s : St) (ops : List Op) (c : Tid) :
-    ((run s ops) c).keys = lastInstalled c (s c).keys ops := by
+/-- the session slot is always keyed with the last installed key set -/
+theorem run_keys (s : St S) (ops : List (Op S)) (c : Tid) :
+    ((run s ops) c).key = lastInstalled c (s c).key ops := by
   induction ops generalizing s with
   | nil => rfl
   | cons o os ih =>
     simp only [run]
-    rw [ih, step_keys]
-    have := lastInstalled_append c (s c).keys [o] os
+    rw [ih, (step_frame s o c).2]
+    have := lastInstalled_append c (s c).key [o] os
     simpa using this.symm
 
-theorem run_append (s : St) (a b : List Op) : run s (a ++ b) = run (run s a) b := by
+theorem run_append (s : St S) (a b : List (Op S)) : run s (a ++ b) = run (run s a) b := by
   induction a generalizing s with
   | nil => rfl
   | cons o os ih => simp [run, ih]
 
 /-- an event of the trace is an event of one step taken from a reachable state -/
-theorem mem_trace_iff (s : St) (ops : List Op) (ev : Ev) :
+theorem mem_trace_iff (s : St S) (ops : List (Op S)) (ev : Ev) :
     ev ∈ trace s ops ↔ ∃ pre o post, ops = pre ++ o :: post ∧ ev ∈ (step (run s pre) o).2 := by
   induction ops generalizing s with
   | nil => simp [trace]
@@ -78,7 +140,7 @@ theorem mem_trace_iff (s : St) (ops : List Op) (ev : Ev) :
         refine (ih _).2 ⟨ps, o', post, he.2, ?_⟩
         rw [he.1]; simpa [run] using hm
 
-theorem lastInstalled_none (c : Tid) (ops : List Op) (h : ∀ k, Op.installKeys c k ∉ ops) :
+theorem lastInstalled_none (c : Tid) (ops : List (Op S)) (h : ∀ k, Op.installKeys c k ∉ ops) :
     lastInstalled c none ops = none := by
   induction ops with
   | nil => rfl
@@ -89,5 +151,149 @@ theorem lastInstalled_none (c : Tid) (ops : List Op) (h : ∀ k, Op.installKeys 
     by_cases ht : t = c
     · exact absurd (by simp [ht]) (h k)
     · simp [ht]; exact ih hos
+
+/-! ### the five outbound gates, one by one -/
+
+/-- shape of every outbound gate's output: whatever it emits goes to connection `t`, and if `t` is
+mandatory it is the `Ok` output of `t`'s session (never the clear arm, never the error arm) -/
+def GateOk (t : Tid) (x : Tr S) (evs : List Ev) : Prop :=
+  ∀ c m f src, Ev.emit c m f src ∈ evs →
+    c = t ∧ (x.required = true → ∃ k, x.key = some k ∧ f = .prot t k) ∧
+    (∀ k, x.key = some k → f = .prot t k) ∧ (x.key = none → f = .clear ∧ x.required = false)
+
+theorem sendRawGate_ok (t : Tid) (x : Tr S) (p : Bool) : GateOk t x (sendRawGate t x p).2 := by
+  intro c m f src h
+  unfold sendRawGate at h
+  cases hx : x.sess with
+  | none =>
+    rw [hx] at h
+    by_cases hr : x.required = true <;> simp [hr] at h
+    obtain ⟨rfl, rfl, rfl, rfl⟩ := h
+    simp_all [Tr.key]
+  | some se =>
+    rw [hx] at h
+    cases p
+    · simp at h
+    · by_cases hp : (S.protectRtp se).2 = true <;> simp [hp] at h
+      obtain ⟨rfl, rfl, rfl, rfl⟩ := h
+      simp_all [Tr.key]
+
+theorem sendRtpGate_ok (t : Tid) (x : Tr S) : GateOk t x (sendRtpGate t x).2 := by
+  intro c m f src h
+  unfold sendRtpGate at h
+  cases hx : x.sess with
+  | none =>
+    rw [hx] at h
+    by_cases hr : x.required = true <;> simp [hr] at h
+    obtain ⟨rfl, rfl, rfl, rfl⟩ := h
+    simp_all [Tr.key]
+  | some se =>
+    rw [hx] at h
+    by_cases hp : (S.protectRtp se).2 = true <;> simp [hp] at h
+    obtain ⟨rfl, rfl, rfl, rfl⟩ := h
+    simp_all [Tr.key]
+
+theorem sendRtcpGate_ok (t : Tid) (x : Tr S) : GateOk t x (sendRtcpGate t x).2 := by
+  intro c m f src h
+  unfold sendRtcpGate at h
+  cases hx : x.sess with
+  | none =>
+    rw [hx] at h
+    by_cases hr : x.required = true <;> simp [hr] at h
+    obtain ⟨rfl, rfl, rfl, rfl⟩ := h
+    simp_all [Tr.key]
+  | some se =>
+    rw [hx] at h
+    by_cases hp : (S.protectRtcp se).2 = true <;> simp [hp] at h
+    obtain ⟨rfl, rfl, rfl, rfl⟩ := h
+    simp_all [Tr.key]
+
+theorem syncByeGate_ok (t : Tid) (x : Tr S) : GateOk t x (syncByeGate t x).2 := by
+  intro c m f src h
+  unfold syncByeGate at h
+  cases hx : x.sess with
+  | none =>
+    rw [hx] at h
+    by_cases hr : x.required = true <;> simp [hr] at h
+    obtain ⟨rfl, rfl, rfl, rfl⟩ := h
+    simp_all [Tr.key]
+  | some se =>
+    rw [hx] at h
+    by_cases hp : (S.protectRtcp se).2 = true <;> simp [hp] at h
+    obtain ⟨rfl, rfl, rfl, rfl⟩ := h
+    simp_all [Tr.key]
+
+theorem bridgeGate_ok (t : Tid) (x : Tr S) (o : Tid) (p : Prov) : GateOk t x (bridgeGate t x o p).2 := by
+  intro c m f src h
+  unfold bridgeGate at h
+  cases hx : x.sess with
+  | none =>
+    rw [hx] at h
+    by_cases hr : x.required = true <;> simp [hr] at h
+    obtain ⟨rfl, rfl, rfl, rfl⟩ := h
+    simp_all [Tr.key]
+  | some se =>
+    rw [hx] at h
+    by_cases hp : (S.protectRtp se).2 = true <;> simp [hp] at h
+    obtain ⟨rfl, rfl, rfl, rfl⟩ := h
+    simp_all [Tr.key]
+
+theorem bridgeGate_shape (tgt : Tid) (y : Tr S) (o : Tid) (p : Prov) (ev : Ev) (h : ev ∈ (bridgeGate tgt y o p).2) :
+    ∃ f, ev = .emit tgt .rtp f (.relay o p) := by
+  unfold bridgeGate at h
+  cases hy : y.sess with
+  | none => rw [hy] at h; by_cases hr : y.required = true <;> simp [hr] at h; exact ⟨_, h⟩
+  | some se => rw [hy] at h; by_cases hp : (S.protectRtp se).2 = true <;> simp [hp] at h; exact ⟨_, h⟩
+
+/-- the inbound gates: an accepted packet of a mandatory transport came through `unprotect_* = Ok`
+of the session in the slot -/
+theorem recvRtpGate_ok (x : Tr S) (w : S.W) (p : Prov) (h : (recvRtpGate x w).2 = some p)
+    (hreq : x.required = true) :
+    ∃ se, x.sess = some se ∧ p = .auth (S.keyOf se) ∧ (S.unprotectRtp se w).2 = true := by
+  unfold recvRtpGate at h
+  cases hx : x.sess with
+  | none => rw [hx] at h; simp [hreq] at h
+  | some se =>
+    rw [hx] at h
+    by_cases hu : (S.unprotectRtp se w).2 = true
+    · simp [hu] at h; exact ⟨se, rfl, h.symm, hu⟩
+    · simp [hu] at h
+
+theorem recvRtcpGate_ok (x : Tr S) (w : S.W) (p : Prov) (h : (recvRtcpGate x w).2 = some p)
+    (hreq : x.required = true) :
+    ∃ se, x.sess = some se ∧ p = .auth (S.keyOf se) ∧ (S.unprotectRtcp se w).2 = true := by
+  unfold recvRtcpGate at h
+  cases hx : x.sess with
+  | none => rw [hx] at h; simp [hreq] at h
+  | some se =>
+    rw [hx] at h
+    by_cases hu : (S.unprotectRtcp se w).2 = true
+    · simp [hu] at h; exact ⟨se, rfl, h.symm, hu⟩
+    · simp [hu] at h
+
+
+
+/-- the events of the part of `recvRtp` after acceptance -/
+theorem afterAccept_events (s : St S) (t : Tid) (p : Prov) (v : Bool) (ev : Ev)
+    (hev : ev ∈ (afterAccept s t p v).2) :
+    (ev = .deliver t .ingressObs p) ∨ (ev = .deliver t .listener p ∧ (s t).bridge = none) ∨
+    (∃ b, (s t).bridge = some b ∧
+      (ev = .deliver t (.relayObs (b.pick v)) p ∨ ev ∈ (bridgeGate (b.pick v) (s (b.pick v)) t p).2)) := by
+  unfold afterAccept at hev
+  cases hb : (s t).bridge with
+  | some b =>
+    rw [hb] at hev
+    simp only [relayTo, obsEv, List.mem_append] at hev
+    rcases hev with (hev | hev) | hev
+    · split at hev <;> simp at hev; exact Or.inl hev
+    · split at hev <;> simp at hev; exact Or.inr (Or.inr ⟨b, rfl, Or.inl hev⟩)
+    · exact Or.inr (Or.inr ⟨b, rfl, Or.inr hev⟩)
+  | none =>
+    rw [hb] at hev
+    simp only [obsEv, List.mem_append] at hev
+    rcases hev with hev | hev
+    · split at hev <;> simp at hev; exact Or.inl hev
+    · split at hev <;> simp at hev; exact Or.inr (Or.inl ⟨hev, rfl⟩)
+
 
 end RtcModel.Gate
